@@ -48,7 +48,11 @@ func (g *Group) Go(f func() error) {
 		return
 	}
 	if g.limit > 0 {
-		panic("verrgroup: SetLimit is not modelled")
+		// SetLimit: Go blocks until fewer than limit goroutines of the group are active
+		vsched.Block(limW{g}, -1, "errgroup.Go(limit)")
+		if vsched.Aborting() {
+			return
+		}
 	}
 	g.add(1)
 	vsched.Go(func() {
@@ -60,6 +64,27 @@ func (g *Group) Go(f func() error) {
 			}
 		}
 	})
+}
+
+type limW struct{ g *Group }
+
+//go:norace
+func (w limW) Ready() bool { return w.g.n < w.g.limit }
+
+// TryGo starts f only if the group is below its limit.
+func (g *Group) TryGo(f func() error) bool {
+	if vsched.Aborting() {
+		return false
+	}
+	vsched.Yield("errgroup.TryGo")
+	if g.limit > 0 && g.n >= g.limit {
+		return false
+	}
+	lim := g.limit
+	g.limit = 0
+	g.Go(f)
+	g.limit = lim
+	return true
 }
 
 //go:norace
